@@ -43,7 +43,7 @@ var extraHeaders = []string{"Prefer: return=minimal", "Prefer: return=representa
 // otherCTs: Content-Type values that are not XML, on a request without a body.
 var otherCTs = []string{"application/octet-stream", "text/plain", "application/x-www-form-urlencoded", "text/plain; charset=utf-8", "application/json", "multipart/form-data; boundary=x", "*/*", "garbage"}
 
-var fsSegs = []string{"a", "b.txt", "c d", "é", "x%41", "q?x", "h#1", "s;c", "a&b", "a+b", "a:b", "~t", "(p)", "[b]",
+var fsSegs = []string{".profile", "profile", ".config", "..data", "...", "a", "b.txt", "c d", "é", "x%41", "q?x", "h#1", "s;c", "a&b", "a+b", "a:b", "~t", "(p)", "[b]",
 	"ü ñ.html", "%zz", "data.json", "img.png", "UPPER", "a'b", "a\"b", "a<b>", "e=f", "@at", "x,y", "sub", "deep", "0"}
 
 // Member names that look like implementation artefacts (temporary upload
@@ -364,6 +364,9 @@ func genDavWorld(r *rand.Rand, server string) world {
 			if pick() {
 				o.Len = 1 + int64(r.Intn(100000))
 			}
+			if r.Intn(7) == 0 {
+				o.Ctl = 1 + r.Intn(3)
+			}
 			if server == srvCal && r.Intn(9) == 0 {
 				// held by the backend, refused by the iCalendar encoder
 				o.Unenc = 1 + r.Intn(2)
@@ -387,13 +390,21 @@ func genPrincipalWorld(r *rand.Rand) world {
 	if r.Intn(3) != 0 {
 		p.CardHome = []string{"/card/", "/u/contacts/", "/a&b/"}[r.Intn(3)]
 	}
+	if p.CalHome != "" && r.Intn(4) == 0 {
+		p.CalHome2 = "/shared/calendars/"
+	}
+	if p.CardHome != "" && r.Intn(4) == 0 {
+		p.CardHome2 = "/shared/contacts/"
+	}
 	return world{Server: srvPrincipal, Princ: p}
 }
 
 func genWorld(r *rand.Rand, kind int) world {
 	switch kind % 5 {
 	case 0:
-		return genFileWorld(r, srvLocal)
+		w := genFileWorld(r, srvLocal)
+		w.RootSpelling = []string{"", "", "dot", "dot-slash", "relative", "trailing-slash"}[r.Intn(6)]
+		return w
 	case 1:
 		return genFileWorld(r, srvMem)
 	case 2:
